@@ -25,6 +25,8 @@ RULE = (
     "requested prefix.  Observed interleavings are measured: requests whose counter field equals that of another "
     "request on the same engine (two threads read the same counter before either wrote it back).  Non-trivial = a "
     "round in which >= 1 such interleaving was observed; distinct = (threads, engines, interleaving bucket, route mix)."
+    "  A fourth route is Engine.make_leaf with empty and non-empty payloads; prefixes include identifier-like, "
+    "58-72 character, non-identifier ('deepCoadd.calexp', 'u/someone/run 1') and non-ASCII ones. "
 )
 ASSUMPTIONS = [
     "schedules are explored only at the statement boundaries of get_relation_name (the only shared mutable state "
